@@ -1,6 +1,6 @@
 \* exhaustive check of the dispatch rule against the statement (the code's table order)
 SPECIFICATION Spec
-INVARIANT RouteAllowed KindRespected TableSorted NeverFatal
+INVARIANT RouteAllowed KindRespected TableSorted SendNeverFails
 CHECK_DEADLOCK FALSE
 CONSTANTS
   NBits = 4
